@@ -25,7 +25,9 @@ func idCounterOps(c *core.Ctx) []an.AtomicOp {
 	return out
 }
 
-func isNextIteration(f *ssa.Function) bool { return isMethod(f, workersPkg, "PoolManager", "NextIteration") }
+func isNextIteration(f *ssa.Function) bool {
+	return isMethod(f, workersPkg, "PoolManager", "NextIteration")
+}
 
 func c03(c *core.Ctx, r *core.Report) {
 	r.Explanation = "Decides the structural conditions of 'max-iterations is a hard ceiling; ids unique and gapless': (R1) the id counter is modified only by one atomic Add(1) in the allocator and the id handed out is that Add's result; " +
